@@ -76,14 +76,18 @@ class Result:
                 'seconds': round(self.seconds, 4), 'path': self.path, 'detail': self.detail[:2000]}
 
 
-def run_cvc5(smt2, timeout_s=CVC5_TIMEOUT_S):
+def run_cvc5(smt2, timeout_s=CVC5_TIMEOUT_S, want_model=False):
     with tempfile.NamedTemporaryFile('w', suffix='.smt2', delete=False, dir=os.environ.get('PYVC_TMP', None)) as f:
-        f.write('(set-logic ALL)\n' + smt2 + '\n(check-sat)\n')
+        f.write('(set-logic ALL)\n' + smt2 + '\n(check-sat)\n' + ('(get-model)\n' if want_model else ''))
         path = f.name
     try:
-        p = subprocess.run(['/usr/bin/cvc5', '--strings-exp', '--tlimit=%d' % (timeout_s * 1000), path],
-                           capture_output=True, text=True, timeout=timeout_s + 5)
+        cmd = ['/usr/bin/cvc5', '--strings-exp', '--tlimit=%d' % (timeout_s * 1000)]
+        if want_model:
+            cmd += ['--produce-models', '--strings-fmf']
+        p = subprocess.run(cmd + [path], capture_output=True, text=True, timeout=timeout_s + 5)
         out = p.stdout.strip().splitlines()
+        if want_model:
+            return (out[0] if out else 'unknown'), '\n'.join(out[1:])[:3000]
         return out[0] if out else 'unknown'
     except Exception:
         return 'unknown'
@@ -173,6 +177,14 @@ def check_valid(pc, formula, want_model=True, timeout_ms=None, second_backend=Tr
             rc = 'unknown'
         if rc == 'unsat':
             return 'proved', 'cvc5', time.time() - t0, None, s
+        if rc == 'sat':
+            # z3 could not decide, cvc5 finds the negation satisfiable: the obligation fails, without a decoded input
+            try:
+                _, mtxt = run_cvc5(smt, want_model=True)
+            except Exception:
+                mtxt = ''
+            s.cvc5_model_text = mtxt
+            return 'failed', 'cvc5', time.time() - t0, None, s
     return 'unknown', 'z3+cvc5' if second_backend else 'z3', time.time() - t0, None, s
 
 
@@ -302,7 +314,7 @@ class Contract:
                            detail=ob.note, path=path_id, contract=self)
                 r.outcome = o
                 r.ob = ob
-                if st == 'failed' and want_models:
+                if st == 'failed' and want_models and model is not None:
                     try:
                         r.model = self._decode(I, model, o)
                     except Exception as e:
@@ -323,15 +335,17 @@ class Contract:
 
     def _discharge(self, name, props, o, formula, path_id, cl, want_models):
         st, be, secs, model, solver = check_valid(o.state.pc, formula)
+        if os.environ.get('PYVC_TRACE'):
+            print('  [trace] %s path %s -> %s (%s, %.2fs)' % (name, path_id, st, be, secs), flush=True)
         r = Result(name, props, st, be, secs, path=path_id, clause=cl, contract=self)
         r.outcome = o
         if st == 'failed' and want_models:
             try:
-                r.model = self._decode(self.I, model, o)
+                r.model = self._decode(self.I, model, o) if model is not None else None
             except Exception as e:      # decoding is best effort
                 r.model = None
                 r.detail = 'model decoding failed: %r\n' % (e,)
-            r.detail += self._model_text(model)
+            r.detail += self._model_text(model) if model is not None else ('cvc5 model:\n' + getattr(solver, 'cvc5_model_text', ''))
         return r
 
     def _decode(self, I, model, outcome):
